@@ -466,6 +466,7 @@ func (o *oracle) after(s *sim, sp *runSpec, pre *preState, outcome string) (stri
 				case !ok && o.cfg[e.key.kid()] && e.st == "R" && legit(e.key):
 				case !ok && o.cfg[e.key.kid()] && e.key.revoked() && e.st == "R": // admin pre-seeded REVOKE form, re-seeded as a marker
 				case !ok && !stOK && hasKey(pre.liveBefore, e.key.id, e.key.flags) && e.st == "V":
+				case !ok && !stOK && hasKey(pre.liveBefore, e.key.id, e.key.flags) && e.st == "R" && legit(e.key): // re-seeded from the live set, then revoked
 				case ok && b.key.kid() == e.key.kid() && (b.st == "V" || b.st == "M") && e.st == "V" && !stOK:
 				default:
 					flag(fail("autota/revocation-only/state-transition", "tag %d: %s/%s -> %s/%s", tag, b.key, b.st, e.key, e.st))
